@@ -1,4 +1,6 @@
-CONSTANT Full = FALSE
+CONSTANTS
+ Full = FALSE
+ Repaired = TRUE
 INIT TInit
 NEXT TNext
 INVARIANT TInv
